@@ -32,6 +32,7 @@ EXPLANATION = (
   " (ITEM-source) an object built once per item of an inner loop is filled only with values that derive from that item or do not vary with the loops, never with a value of the enclosing container standing where the item's own belongs;"
   ' (LOOP-break) no loop over the items of a collection is left by a branch that does nothing but `break` on a test about the item (end-of-input sentinels, flags set in the loop body and searches whose variable is read afterwards excepted): an item that is to be skipped does not end the processing of the items after it;'
   ' (PAIR-compute) as in C13: every uncomputed value copied onto the ISD element (animated, specified, initial, direction semantics) is registered for computation on every path through the copy;'
+  + common.SHARED_CLAUSES['validators']
 )
 RULE_TEXT = "per ordering pair, guard, property x {inherited, initial, applies-to}, _compute_length call site, unit"
 UNDECIDED = ["numeric values (em-of-%-of-c chains, position edge arithmetic, ruby half size)", "tts:disparity applicability (not established from the specification)"]
@@ -410,6 +411,7 @@ def check_unattached(ctx):
 
 
 def run(ctx):
+  common.check_shared_helpers(ctx, validators=True)
   isdrules.check_style_order(ctx)
   n = isdrules.check_compute_order(ctx)
   ctx.floor("TAB-compute-order", "processors with a compute()", n, 10)
